@@ -510,6 +510,9 @@ func runRecv(in recvIn) Sx {
 					break
 				}
 			}
+			if it.T == "serr" {
+				continue // a stream error is routed once, on the receive goroutine itself
+			}
 			want++
 		}
 	}
@@ -815,12 +818,24 @@ func runRecvWS(in recvIn) Sx {
 	// (own deadline: the loop may already have ended -- on a rejected element -- while its last answer is still
 	// travelling to the server; it only bounds the wait for an answer that was never written)
 	adl := time.Now().Add(4 * time.Second)
+	graced := false
 	for time.Now().Before(adl) {
 		smu.Lock()
 		na := len(answers)
 		smu.Unlock()
 		if na >= wantA {
 			break
+		}
+		if !graced {
+			select {
+			case <-done:
+				// the loop has ended: what it wrote is on its way; an answer it never wrote will not come
+				graced = true
+				if g := time.Now().Add(300 * time.Millisecond); g.Before(adl) {
+					adl = g
+				}
+			default:
+			}
 		}
 		time.Sleep(300 * time.Microsecond)
 	}
